@@ -87,6 +87,27 @@ void h_setopt_bool_concrete(void)
 	CANARY("setopt_bool_concrete");
 }
 
+/* set-from-text on an option that does not hold an explicitly set scalar: a pristine default, an emptied option, a list.
+ * The statement C10 wants an unconvertible text to leave such an option bit-for-bit as it was; cfg_setopt() drops the
+ * defaults and appends its slot BEFORE it converts - recorded finding. */
+void h_setopt_int_unconvertible_states(void)
+{
+	cfg_t cfg; cfg_opt_t opt; cfg_value_t v, *vp = &v, *vals[1]; cfg_value_t *r; unsigned k = nondet_uint();
+	int flags; unsigned n;
+	memset(&cfg, 0, sizeof cfg); memset(&opt, 0, sizeof opt);
+	cfg.errfunc = cfgv_errfunc; cfg.name = "root";
+	if (k == 0) { flags = CFGF_RESET; n = 1; } else if (k == 1) { flags = 0; n = 0; } else if (k == 2) { flags = CFGF_LIST; n = 1; } else { flags = CFGF_LIST | CFGF_RESET; n = 1; }
+	opt.name = "o"; opt.type = CFGT_INT; opt.flags = flags; opt.nvalues = n;
+	if (n) { vals[0] = cfgv_alloc(sizeof(cfg_value_t)); vals[0]->number = 7; opt.values = cfgv_alloc(sizeof(cfg_value_t *)); opt.values[0] = vals[0]; }
+	(void)vp; (void)v;
+	g_diag = 0;
+	r = cfg_setopt(&cfg, &opt, "x");
+	CHECK("C04,C06", r == NULL && g_diag >= 1, "an unconvertible text is refused with a diagnostic whatever the option held");
+	KFCHECK("C10-setopt-mutates-before-conversion", "C10", opt.nvalues == n && opt.flags == flags && (n == 0 || (opt.values != NULL && opt.values[0] == vals[0] && vals[0]->number == 7)),
+		"set-from-text with unconvertible text leaves a default-holding, emptied or list option exactly as it was");
+	CANARY("setopt_int_unconvertible_states");
+}
+
 void h_parse_boolean(void)
 {
 	int want, got;
